@@ -72,10 +72,9 @@ TInit == /\ tr \in 1..Len(Traces) /\ comp \in Comps \cap {Traces[tr].comps[k] : 
 
 \* the stamp of the next event of client c (beyond every stamp when it has none)
 NextStamp(c) == IF Over(c) THEN 1000000 ELSE IF ph[c] = "idle" THEN Cur(c).ti ELSE Cur(c).tr
-InOrder(c) == IF RealTime THEN \A c2 \in 1..NC : NextStamp(c) <= NextStamp(c2)
-                          ELSE \A c2 \in 1..NC : c2 # c => ph[c2] = "idle"
+InOrder(c) == \A c2 \in 1..NC : NextStamp(c) <= NextStamp(c2)
 
-TInvoke(c) == /\ ph[c] = "idle" /\ ~Over(c) /\ InOrder(c)
+TInvoke(c) == /\ RealTime /\ ph[c] = "idle" /\ ~Over(c) /\ InOrder(c)
               /\ ph' = [ph EXCEPT ![c] = "inv"]
               /\ UNCHANGED <<store, schemas, jobs, up, sess, res, lin, tr, comp, pos, fin>>
 
@@ -86,9 +85,9 @@ EditEffect(call, r) ==
     \/ r.res # "ok" /\ store' = store
     \/ r.res # "ok" /\ e[2] = "ok" /\ store' = e[1]
 
-TEffect(c) ==
-  /\ ph[c] = "inv"
-  /\ LET call == ToCall(Cur(c).call)
+\* the state change of the current call of client c
+Change(c) ==
+     LET call == ToCall(Cur(c).call)
          r == Cur(c).res IN
        \/ /\ call.op \in EditOps
           /\ EditEffect(call, r) /\ UNCHANGED <<schemas, jobs>>
@@ -110,10 +109,19 @@ TEffect(c) ==
                        \/ r.state \in {"QUEUED", "RUNNING"} /\ jobs[j] = "RUNNING" /\ jobs' = jobs
                ELSE j \notin DOMAIN jobs /\ jobs' = jobs
           /\ UNCHANGED <<store, schemas>>
-  /\ ph' = [ph EXCEPT ![c] = "eff"]
-  /\ UNCHANGED <<up, sess, res, lin, tr, comp, pos, fin>>
 
-TReturn(c) == /\ ph[c] = "eff" /\ InOrder(c)
+TEffect(c) == /\ RealTime /\ ph[c] = "inv"
+              /\ Change(c)
+              /\ ph' = [ph EXCEPT ![c] = "eff"]
+              /\ UNCHANGED <<up, sess, res, lin, tr, comp, pos, fin>>
+
+\* per-client order only: a call is one atomic step, in any interleaving that keeps each client's order
+TCall(c) == /\ ~RealTime /\ ~Over(c)
+            /\ Change(c)
+            /\ pos' = [pos EXCEPT ![c] = NextRel(T, comp, c, @)]
+            /\ UNCHANGED <<up, sess, ph, res, lin, tr, comp, fin>>
+
+TReturn(c) == /\ RealTime /\ ph[c] = "eff" /\ InOrder(c)
               /\ ph' = [ph EXCEPT ![c] = "idle"]
               /\ pos' = [pos EXCEPT ![c] = NextRel(T, comp, c, @)]
               /\ UNCHANGED <<store, schemas, jobs, up, sess, res, lin, tr, comp, fin>>
@@ -171,7 +179,7 @@ TFinal == /\ ~fin /\ AllConsumed
           /\ fin' = TRUE
           /\ UNCHANGED <<store, schemas, jobs, up, sess, ph, res, lin, tr, comp, pos>>
 
-TNext == \/ \E c \in 1..NC : TInvoke(c) \/ TEffect(c) \/ TReturn(c)
+TNext == \/ \E c \in 1..NC : TInvoke(c) \/ TEffect(c) \/ TReturn(c) \/ TCall(c)
          \/ TFinal
 
 \* acceptance: the driver collects the accepted (history, object) pairs; for a graph, with the
